@@ -2,6 +2,7 @@
 # tools/try_mutant.sh <mutant dir with patch.diff demo.rs> <scratch worktree> <check ids...>
 # 1. confirms in the scratch worktree: tests pass with the patch, demo fails with / passes without
 # 2. applies the patch to /repo, runs the given checks (quick tier), reverts /repo
+#    (EVAL_REPO / EVAL_VERIF: use a private copy made by tools/eval_copy.sh instead of /repo and /verif)
 set -u
 MD="$1"; WT="$2"; shift 2
 FEAT="${MUT_FEATURES:-}"
@@ -28,11 +29,12 @@ TESTS=$(CARGO_NET_OFFLINE=true cargo test --offline 2>&1 | grep -E "^test result
 git checkout -q -- src
 echo "tests-with-mutant: $TESTS"
 echo "demo: base exit=$BASE mutant exit=$MUT"
-cd /repo || exit 2
-git apply --check "$MD/patch.diff" || { echo "PATCH-DOES-NOT-APPLY in /repo"; exit 3; }
+ER="${EVAL_REPO:-/repo}"; EV="${EVAL_VERIF:-/verif}"
+cd "$ER" || exit 2
+git apply --check "$MD/patch.diff" || { echo "PATCH-DOES-NOT-APPLY in $ER"; exit 3; }
 git apply "$MD/patch.diff"
 for c in "$@"; do
-  OUT=$(/verif/check $c --tier ${MUT_TIER:-quick} 2>&1); RC=$?
+  OUT=$($EV/check $c --tier ${MUT_TIER:-quick} 2>&1); RC=$?
   echo "check $c: exit=$RC $(echo "$OUT" | grep -c '^VIOLATION') violation lines; $(echo "$OUT" | grep -E '^\[C' | tail -1)"
   echo "$OUT" | grep -A3 '^VIOLATION' | head -8
 done
